@@ -157,6 +157,11 @@ Theorem C11_queries : forall q M, Permutation (q_queue q) M ->
 Proof. exact queries. Qed.
 Print Assumptions C11_queries.
 
+(* the `queue` property hands out the array itself and changes nothing *)
+Theorem C11_queue_property : forall q, step q OQueue = (q, RQueue (q_queue q)).
+Proof. reflexivity. Qed.
+Print Assumptions C11_queue_property.
+
 (* ---------------------------------------------------------------------------------------------
    C11_json: _from_dict (_to_dict q) rebuilds the same array in the same order with the same
    events and the same _timestep; so a JSON round trip at any point of any operation sequence
